@@ -2,6 +2,8 @@
 # usage: run_against_mutant.sh <patch.diff> <outfile> <check ids...>
 # Applies the patch to /repo, runs the quick checks, restores /repo.
 patch=$1; out=$2; shift 2
+# one user of /repo at a time
+exec 9>/tmp/wt/out/repo.lock; flock 9
 cd /repo && git status --short | grep -q . && { echo "/repo not clean"; exit 2; }
 git -C /repo apply $patch || { echo "cannot apply"; exit 2; }
 : > $out
